@@ -582,7 +582,7 @@ caf_write_header (SF_PRIVATE *psf, int calc_length)
 	DESC_CHUNK desc ;
 	sf_count_t current ;
 	uint32_t uk ;
-	int subformat, append_free_block = SF_TRUE ;
+	int subformat, append_free_block = SF_TRUE, has_data = SF_FALSE ;
 
 	if ((pcaf = psf->container_data) == NULL)
 		return SFE_INTERNAL ;
@@ -590,6 +590,9 @@ caf_write_header (SF_PRIVATE *psf, int calc_length)
 	memset (&desc, 0, sizeof (desc)) ;
 
 	current = psf_ftell (psf) ;
+
+	if (current > psf->dataoffset)
+		has_data = SF_TRUE ;
 
 	if (calc_length)
 	{	psf->filelength = psf_get_filelen (psf) ;
@@ -755,7 +758,7 @@ caf_write_header (SF_PRIVATE *psf, int calc_length)
 		return psf->error ;
 
 	psf->dataoffset = psf->header.indx ;
-	if (current < psf->dataoffset)
+	if (current < psf->dataoffset || ! has_data)
 		psf_fseek (psf, psf->dataoffset, SEEK_SET) ;
 	else if (current > 0)
 		psf_fseek (psf, current, SEEK_SET) ;
